@@ -345,8 +345,9 @@ pub fn run(tier: Tier, seed: u64) -> i32 {
         }
     }
     // a bidirectional D next to an output that is literally called D_out
-    {
-        let sigs = vec![Sig::bidir("D", 4, V::Num(1)), Sig::inp("A", 1, 0), Sig::out("D_out", 8)];
+    // (of another width, and of the same width)
+    for dw in [8usize, 4] {
+        let sigs = vec![Sig::bidir("D", 4, V::Num(1)), Sig::inp("A", 1, 0), Sig::out("D_out", dw)];
         let p3 = Program { header: vec!["A".into(), "D_out".into()], body: (0..3).map(|j| Stmt::Row(vec![Entry::Lit(j % 2, Radix::Dec), exp(j as usize + 2)])).collect() };
         for layout in ordered_selections(2, 2) {
             let names: Vec<String> = layout.iter().map(|&i| ["D", "D_out"][i].to_string()).collect();
@@ -360,7 +361,7 @@ pub fn run(tier: Tier, seed: u64) -> i32 {
                 }
                 menu.push(MenuItem::ans(a));
             }
-            cases.push(Case::new(&format!("bidirectional D and an output named D_out, layout {names:?}"), p3.clone(), sigs.clone(), true, menu.clone(), menu, 8));
+            cases.push(Case::new(&format!("bidirectional D(4) and an output named D_out({dw}), layout {names:?}"), p3.clone(), sigs.clone(), true, menu.clone(), menu, 8));
         }
     }
     let ncases = cases.len();
